@@ -153,8 +153,10 @@ Definition enc_def (d : sdef) : bytes := enc_header ++ enc_body d.
 Definition write_def (d : sdef) : option bytes := if def_ok d then Some (enc_def d) else None.
 
 (* ------------------------------------------------------------------ *)
-(* variants: SynthDef._write_def lines 699-736, REPAIRED behaviour (an invalid variant is an
-   error for the whole definition; the unrepaired code writes the count and returns early).
+(* variants: SynthDef._write_def lines 699-736, REPAIRED behaviour: the variants are resolved BEFORE
+   the count is written; resolution stops (with a warning) at the first invalid variant and only the
+   valid prefix is counted and written.  (The unrepaired code writes the count of ALL variants first
+   and returns early: the bytes announce variants that are not there.)
    names: (control name, first slot, number of channels of its default)
    src:   (variant key, [(control name, value words)])                                       *)
 
@@ -191,17 +193,17 @@ Fixpoint apply_pairs (names : list (bytes * Z * Z)) (ctl : list Z) (pairs : list
   end.
 
 Fixpoint resolve_variants (name : bytes) (ctl : list Z) (names : list (bytes * Z * Z))
-         (src : list (bytes * list (bytes * list Z))) : option (list variant) :=
+         (src : list (bytes * list (bytes * list Z))) : list variant :=
   match src with
-  | [] => Some []
+  | [] => []
   | (key, pairs) :: r =>
     let full := name ++ 46 :: key in                       (* name + '.' + key *)
     if zlen full <=? 32
-    then match apply_pairs names ctl pairs, resolve_variants name ctl names r with
-         | Some vals, Some vs => Some (mkVariant full vals :: vs)
-         | _, _ => None
+    then match apply_pairs names ctl pairs with
+         | Some vals => mkVariant full vals :: resolve_variants name ctl names r
+         | None => []                                      (* not writing more variants *)
          end
-    else None                                             (* variant name too long *)
+    else []                                               (* variant name too long *)
   end.
 
 (* ------------------------------------------------------------------ *)
@@ -619,10 +621,7 @@ Definition check_case (bs : bytes) (order : list (Z * bool)) (libdesc : option d
     if negb (opt_eqb bytes_eqb (write_def d) (Some bs)) then 3 else (* model writer does not reproduce the bytes *)
     if negb (Nat.eqb (List.length order) (List.length (d_units d)) && wfirst_ok order) then 4 else
     if negb (opt_eqb desc_eqb (read_desc bs) libdesc) then 5 else  (* library reader <> read_desc *)
-    match resolve_variants (d_name d) (d_ctl d) names3 vsrc with
-    | Some vs => if list_eqb variant_eqb vs (d_variants d) then 0 else 6
-    | None => 6                                                    (* bytes although a variant is invalid *)
-    end
+    if list_eqb variant_eqb (resolve_variants (d_name d) (d_ctl d) names3 vsrc) (d_variants d) then 0 else 6
   end.
 
 (* the bytes (or the exception = None) the writer must produce for the graph whose neutral build
@@ -632,10 +631,8 @@ Definition expect_bytes (base : bytes) (name : bytes) (names3 : list (bytes * Z 
   match parse_def base with
   | Err _ => Some []                                               (* never equal to real bytes *)
   | Ok d =>
-    match resolve_variants name (d_ctl d) names3 vsrc with
-    | Some vs => write_def (mkSdef name (d_consts d) (d_ctl d) (d_names d) (d_units d) vs)
-    | None => None
-    end
+    write_def (mkSdef name (d_consts d) (d_ctl d) (d_names d) (d_units d)
+                      (resolve_variants name (d_ctl d) names3 vsrc))
   end.
 Definition check_expect (base name : bytes) names3 vsrc (impl : option bytes) : bool :=
   opt_eqb bytes_eqb (expect_bytes base name names3 vsrc) impl.
